@@ -70,6 +70,10 @@ func main() {
 		c16Main(*tier, *build, *repo, *cffBin)
 		return
 	}
+	if *prop == "C17" {
+		c17Main(*tier, *build, *repo, *cffBin)
+		return
+	}
 	if isStatic(*prop) {
 		staticMain(*prop, *tier, *build, *overlay, *repo, *cffBin)
 		return
